@@ -64,6 +64,10 @@ RAW_PRIO = ["PNormal", "PHigh", "PUrgent"]
 
 def op_sends(a, op, k):
     """the (priority, control, flag) triples one API call enqueues; `raw` = one control at an explicit priority (hook)"""
+    if op["op"] == "drop_handle":
+        # the closed channel is noticed once the urgent and high lanes are drained and before anything of the normal lane
+        # (recv: try_recv urgent, try_recv high, then the biased select sees the closed urgent lane): a Delete at the end of the high lane
+        return [f"(PHigh, CDelete, {2 * k + 1}%nat)"]
     if op["op"] == "raw":
         return [f"({RAW_PRIO[op['prio']]}, {ctrl_term(op['ctrl'], dict(op, op='set_hook'))}, {2 * k + 1}%nat)"]
     pr, ctrls = a[op["op"]]
@@ -100,11 +104,11 @@ def history_term(case, variant="fixed"):
         ch.append(f"({se}, {rs}, {df}, {'true' if b.get('ignore_all') else 'false'})")
     nl = lambda key: coq_list([f"{x}%nat" for x in case["script"].get(key, [])])
     env = f"(mk_env {coq_list(ch)} {nl('spawn_fail')} {nl('signal_fail')} {nl('kill_fail')})"
-    tickets = coq_list([f"{2 * k + 1}%nat" for k in range(len(case["ops"]))])
+    tickets = coq_list([f"{2 * k + 1}%nat" for k, op in enumerate(case["ops"]) if op["op"] != "drop_handle"])
     return f"(eval_history {env} {variant} {coq_list(hops)} {case.get('tail', 5000)} {tickets})%N"
 
 
-def impl_string(o, waiter=0):
+def impl_string(o, waiter=0, case=None):
     evs = []
     for line in o["log"]:
         t, ev = line.split(":", 1)
@@ -113,7 +117,8 @@ def impl_string(o, waiter=0):
         if ev.startswith("err("):
             ev = "err"
         evs.append(f"{t}:{ev}")
-    tick = ",".join("-" if w[waiter] is None else str(w[waiter]) for w in o["tickets"])
+    keep = [True] * len(o["tickets"]) if case is None else [op["op"] != "drop_handle" for op in case["ops"]]
+    tick = ",".join("-" if w[waiter] is None else str(w[waiter]) for w, k in zip(o["tickets"], keep) if k)
     return " ".join(evs) + " | " + tick + " | " + ("ended" if o["dead"] else "alive")
 
 
@@ -188,6 +193,9 @@ def gen_history(r, i, maxops=8, faults=True):
         if name == "run_async":
             op["dur"] = r.choice([0, 5, 30, 80])
         ops.append(op)
+    if r.random() < 0.1 and not any(op["op"].startswith("delete") for op in ops):
+        # job termination by dropping the last handle, at any point of the sequence (it is the last thing the caller can do)
+        ops.append({"at": t + r.choice([0, 0, 10, 60]), "op": "drop_handle", "yield": True})
     return {"id": i, "script": script, "ops": ops, "waiters": 1, "tail": 3000}
 
 
@@ -209,7 +217,7 @@ def run_histories(tag, cases, variant="fixed"):
         elif o.get("harness_panic"):
             outl.append((case, o, "HARNESS-PANIC", model_set(m)))
         else:
-            outl.append((case, o, strip_drop(impl_string(o)).strip(), model_set(m)))
+            outl.append((case, o, strip_drop(impl_string(o, 0, case)).strip(), model_set(m)))
     return outl
 
 
@@ -250,6 +258,10 @@ def exhaustive(maxlen, start_id, stride=1, offset=0):
                         ops.append(op)
                     out.append({"id": start_id + len(out), "script": {"children": [dict(child)], "spawn_fail": [], "signal_fail": [], "kill_fail": []},
                                 "ops": ops, "waiters": 1, "tail": 3000})
+                    if ci in (0, 1) and mode in ("settled", "burst"):
+                        # ... and with the last handle dropped right after it
+                        out.append({"id": start_id + len(out), "script": {"children": [dict(child)], "spawn_fail": [], "signal_fail": [], "kill_fail": []},
+                                    "ops": [dict(x) for x in ops] + [{"at": t, "op": "drop_handle", "yield": True}], "waiters": 1, "tail": 3000})
                     if mode == "settled" and ci in (0, 1):
                         # the same history with one injected fault: the respawn fails / the first signal fails / the first kill fails
                         for key, val in (("spawn_fail", [1]), ("signal_fail", [0]), ("kill_fail", [0])):
